@@ -4,6 +4,7 @@ import (
 	"fmt"
 	"math"
 	"sort"
+	"strconv"
 	"strings"
 
 	"github.com/freeconf/yang/node"
@@ -386,6 +387,13 @@ func intKT(yang, fmtName string, signed bool) keyType {
 var c17KeyTypes = []keyType{
 	intKT("int8", "FInt8", true), intKT("int16", "FInt16", true), intKT("int32", "FInt32", true), intKT("int64", "FInt64", true),
 	intKT("uint8", "FUInt8", false), intKT("uint16", "FUInt16", false), intKT("uint32", "FUInt32", false), intKT("uint64", "FUInt64", false),
+	{yang: "decimal64 { fraction-digits 8; }",
+		// close values: equal after rounding to 6 places, distinct as numbers
+		mk: func(r *gen.Rng) sval {
+			return sval{kind: "dec", f: gen.Pick(r, []float64{0.00000125, 0.0000015, 0.00000175, 0.000001, 1.5, 1.50000001, -2.25, 100, 0, float64(r.Intn(1000)) / 8})}
+		},
+		goV:  func(v sval) interface{} { return v.f },
+		path: func(v sval) string { return strconv.FormatFloat(v.f, 'f', -1, 64) }},
 	{yang: "string",
 		mk: func(r *gen.Rng) sval {
 			return sval{kind: "str", s: randText(r, []string{"a", "b", "B", "z", "0", "-", "_", "ab"}, 4) + "k"}
@@ -409,7 +417,11 @@ func c17Lookups(ctx *core.Ctx, r *gen.Rng, count int) error {
 		}
 		ys.WriteString("\";")
 		for i, kt := range kts {
-			fmt.Fprintf(&ys, " leaf k%d { type %s; }", i, kt.yang)
+			semi := ";"
+			if strings.HasSuffix(kt.yang, "}") {
+				semi = ""
+			}
+			fmt.Fprintf(&ys, " leaf k%d { type %s%s }", i, kt.yang, semi)
 		}
 		ys.WriteString(" leaf v { type string; } } }")
 		m, err := parser.LoadModuleFromString(nil, ys.String())
